@@ -575,7 +575,7 @@ def connectedRows (col : List Sym) (rows : List Nat) : Bool :=
 def setNext (next : List Nat) (ws : List Nat) (v : Nat) : List Nat :=
   ws.foldl (fun acc w => acc.set w v) next
 
-def matchItem (g : Grid) (opIdx : Nat) (st : MState) : Item → Except Fail MState
+def matchItem (strict : Bool) (g : Grid) (opIdx : Nat) (st : MState) : Item → Except Fail MState
   | .loopBegin count => .ok { st with loops := (count, st.seq, none) :: st.loops }
   | .loopEnd =>
     match st.loops with
@@ -599,12 +599,19 @@ def matchItem (g : Grid) (opIdx : Nat) (st : MState) : Item → Except Fail MSta
       match findCol g m0.wire (st.next.getD m0.wire 0) with
       | none => .error ⟨"missing", some opIdx, s!"nothing drawn on wire {m0.wire} from column {st.next.getD m0.wire 0}"⟩
       | some c =>
-        let late := (marks.map (·.wire) ++ covers).find? fun w => st.next.getD w 0 > c
+        -- (the order clauses are skipped when the matching only serves to attribute a structural failure)
+        let late := if strict then (marks.map (·.wire) ++ covers).find? fun w => st.next.getD w 0 > c else none
         let wrong := marks.find? fun m => !(accepts m.kind (g.cell m.wire c))
-        let skipped := (marks.filter fun m => m.kind ≠ .idle).find? fun m =>
+        let skipped := if !strict then none else (marks.filter fun m => m.kind ≠ .idle).find? fun m =>
           ((List.range (c - st.next.getD m.wire 0)).map (st.next.getD m.wire 0 + ·)).any fun c' => !(g.cell m.wire c').isWire
         match late, wrong, skipped with
-        | some w, _, _ => .error ⟨"order", some opIdx, s!"column {c} on wire {w} is not after the previous operation on that wire"⟩
+        | some w, _, _ =>
+          -- drawn into the column of an earlier barrier that covers the wire?
+          match st.cells.find? fun (c', w', _, _) => c' = c && (match g.cell w' c with
+              | .barrier kk => w' ≤ w && w ≤ w' + kk
+              | _ => false) with
+          | some (_, _, k, _) => .error ⟨"span", some k, s!"column {c}: operation {opIdx} is drawn into the column of a barrier covering wire {w}"⟩
+          | none => .error ⟨"order", some opIdx, s!"column {c} on wire {w} is not after the previous operation on that wire"⟩
         | none, some m, _ => .error ⟨"symbol", some opIdx, s!"wire {m.wire} column {c}: unexpected {repr (g.cell m.wire c)}"⟩
         | none, none, some m => .error ⟨"order", some opIdx, s!"wire {m.wire}: a symbol before column {c} belongs to no earlier operation"⟩
         | none, none, none =>
@@ -612,7 +619,7 @@ def matchItem (g : Grid) (opIdx : Nat) (st : MState) : Item → Except Fail MSta
             .error ⟨"unconnected", some opIdx, s!"column {c}: the parts of the operation are not joined"⟩
           else
             .ok { st with
-              next := setNext st.next (marks.map (·.wire) ++ covers) (c + 1),
+              next := setNext st.next (marks.map (·.wire) ++ (if strict then covers else [])) (c + 1),
               claimed := st.claimed + (marks.filter fun m => m.kind ≠ .idle).length,
               idle := ((marks.filter fun m => m.kind = .idle).map fun m => (c, m.wire)) ++ st.idle,
               loops := st.loops.map fun (cnt, s0, span) =>
@@ -622,7 +629,7 @@ def matchItem (g : Grid) (opIdx : Nat) (st : MState) : Item → Except Fail MSta
 
 def matchItems (g : Grid) (opIdx : Nat) : List Item → MState → Except Fail MState
   | [], st => .ok st
-  | it :: rest, st => (matchItem g opIdx st it).bind (matchItems g opIdx rest)
+  | it :: rest, st => (matchItem true g opIdx st it).bind (matchItems g opIdx rest)
 
 def matchOps (nq : Nat) (g : Grid) : List Op → Nat → MState → Except Fail MState
   | [], _, st => .ok st
@@ -633,7 +640,7 @@ def matchLenient (nq : Nat) (g : Grid) : List Op → Nat → MState → MState
   | [], _, st => st
   | op :: rest, k, st =>
     let st' := (opItems nq op).foldl (fun st it =>
-      match matchItem g k st it with
+      match matchItem false g k st it with
       | .ok st' => st'
       | .error _ => match it with
         | .stage marks _ _ => { st with failed := st.failed ++ [(k, marks)] }
